@@ -50,4 +50,47 @@ PROPS = {
         "proj": {"ops": {"files"}, "roles": ["data"]},
         "gen": gen.gen_C15,
     },
+    "C05": {
+        "proj": {"ops": {"open", "read_all", "len", "range", "last_line", "pushrun", "push", "files"}, "roles": ["data"]},
+        "gen": gen.gen_C05,
+    },
+    "C06": {
+        "proj": {"ops": {"files", "open", "len", "read_all", "pushrun", "push"}, "roles": ["index", "data"]},
+        "gen": gen.gen_C06,
+    },
+    "C08": {
+        "proj": {"ops": {"files"}, "roles": ["cache"]},
+        "gen": gen.gen_C08,
+    },
+    "C09": {
+        "proj": {"ops": {"files", "open"}, "roles": ["cache"]},
+        "gen": gen.gen_C09,
+    },
+    "C10": {
+        "proj": {"ops": {"read_n"}},
+        "gen": gen.gen_C10,
+    },
+    "C11": {
+        "proj": {"ops": {"read_n"}},
+        "gen": gen.gen_C11,
+    },
+    "C16": {
+        "proj": {"ops": {"push", "pushrun", "read_all", "len", "range", "last_line", "is_empty", "payload_size",
+                         "n_lines", "read_first_n", "read_n", "page"}, "fsaudit": True},
+        "gen": gen.gen_C16,
+        "audit": True,
+    },
+    "C17": {
+        "proj": {"ops": {"new", "open", "files", "payload_size"}, "roles": None},
+        "gen": gen.gen_C17,
+    },
+    "C18": {
+        "proj": {"ops": {"read_all"}},
+        "gen": gen.gen_C18,
+    },
+    "C19": {
+        "proj": {"ops": None, "nopanic": True},
+        "gen": gen.gen_C19,
+        "timeout": 60,
+    },
 }
